@@ -28,6 +28,12 @@ CHECKS = {
     "C11": ("exploration", "5 C11", "runtime monitoring: iterator-validity oracle (fresh walk) over the complete small-scope SmallSet state space + random histories",
             "Every iterator returned by the library is classified against a fresh begin()..end() walk before being dereferenced; walks and erase loops are "
             "capped by logical step counts."),
+    "C12": ("exploration", "5 C12", "runtime monitoring: complete enumeration of (content, hint, value, form) executed on the real FlatSet, judged against plain insert and std::set",
+            "All subsets of a 6-key (thorough: 9-key) domain x all hints x all values x 3 forms per (comparator, underlying vector) configuration; exhaustive in that scope."),
+    "C18": ("exploration", "5 C18", "runtime monitoring: allocator-call / relocation counters with online bounds during append sweeps",
+            "Counters on the instrumented allocators (or the malloc hook for stock allocators) and on element move constructors are judged after every single append."),
+    "C19": ("exploration", "5 C19", "runtime monitoring: comparator-call counter read around every lookup / insertion, judged against the stated bounds",
+            "Every key rank and gap for n<=64, sampled ranks up to 4096 (20000 thorough), every correct hint, inline SmallSets N=1..8 at every fill."),
 }
 
 NA_REASON = "check not built yet in this session (engine under construction, see DESIGN.md section 5)"
